@@ -32,11 +32,28 @@ STATE_MEASURE = "distinct (image digest, operation history) hashes"
 COMPONENTS = {"real": ["smpl_extract (lazy children/files/SAT realisation, memoisation, in-place renaming, data-stream cursors)"],
               "stub": ["SimFile / virtual FS input with a write monitor", "sandboxed output"]}
 ASSUMPTIONS = ["history length <= 12", "reference = a fresh image object per operation over identical bytes"]
-EXPECTED_PROBES = ["export_after_export", "leaf_before_parent", "export_before_any_ls", "invalid_path_first", "akai", "roland", "cdda", "ls_after_export"]
+EXPECTED_PROBES = ["export_after_export", "leaf_before_parent", "export_before_any_ls", "invalid_path_first", "akai", "roland", "cdda", "ls_after_export", "positional_path", "library_touch"]
 SHRINK = {"max_attempts": 120, "max_seconds": 120.0, "simple_values": {"policy": ["contiguous"], "block": [4096]}}
 
 
 def gen(rng: random.Random, tier: str, index: int) -> dict:
+    if rng.random() < 0.3:
+        # names that need sanitising and de-duplication; paths are addressed by position in the listing of a fresh image
+        from .. import namesim
+        sc = namesim.gen(rng, cdda_ok=True, pairs=True)
+        sc.pop("touch_first", None)
+        ops: List[list] = []
+        for _ in range(rng.randint(2, 9)):
+            r = rng.random()
+            if r < 0.3:
+                ops.append(["export"])
+            elif r < 0.45:
+                ops.append(["ls", rng.choice(["", "nope", "x/y"])])
+            else:
+                ops.append(["lsn"] + [rng.randint(0, 3) for _ in range(rng.randint(1, 3))])
+        sc["ops"] = ops
+        sc["hostile"] = True
+        return sc
     fmt = weighted(rng, [("akai", 5), ("roland", 3), ("cdda", 2)])
     if fmt == "akai":
         model = gen_akai(rng, max_parts=2, max_vols=2, max_files=4, big=False)
@@ -73,6 +90,24 @@ def _all_paths(sc: dict) -> List[str]:
     if sc["fmt"] == "cdda":
         return [""] + [t for t, _ in C.expected_tracks(sc["model"])]
     return [p for p in model_paths(sc) if p != "no such/entry"]
+
+
+def _resolve_positional(sc: dict, sb: Sandbox, cache: dict, idxs) -> str:
+    """Path of the item at listing positions idxs (modulo the listing length), read off fresh images."""
+    path = ""
+    for k in idxs:
+        key = "L:" + path
+        if key not in cache:
+            cache[key] = _fresh(sc, ["ls", path], sb, 0)
+        got = cache[key]
+        rows = tool.parse_ls_table(got[1]) if got[0] == "ls" else None
+        if not rows:
+            break
+        name = rows[k % len(rows)][0]
+        if name.strip() == "":
+            break
+        path = (path + "/" if path else "") + name
+    return path
 
 
 def _open(sc: dict):
@@ -113,6 +148,8 @@ def run(sc: dict) -> RunResult:
     listed = set()
     nontrivial = False
     for i, op in enumerate(ops):
+        if op[0] == "lsn":
+            continue
         if op[0] == "export":
             if seen_export:
                 res.probes["export_after_export"] += 1
@@ -126,6 +163,8 @@ def run(sc: dict) -> RunResult:
             p = op[1].strip().strip("/")
             if seen_export:
                 res.probes["ls_after_export"] += 1
+            if sc.get("hostile"):
+                continue
             if i == 0 and p not in _all_paths(sc):
                 res.probes["invalid_path_first"] += 1
             if "/" in p and p.rsplit("/", 1)[0] not in listed and p in _all_paths(sc):
@@ -144,6 +183,9 @@ def run(sc: dict) -> RunResult:
             else:
                 nexp = 0
                 for i, op in enumerate(ops):
+                    if op[0] == "lsn":
+                        op = ["ls", _resolve_positional(sc, sb, ref_cache, op[1:])]
+                        res.probes["positional_path"] += 1
                     key = digest_of(op)
                     if op[0] == "touch":
                         try:
@@ -185,6 +227,6 @@ def run(sc: dict) -> RunResult:
     res.io_events = sum(s.io_events for s in sfs)
     res.digest = digest_of([s.event_digest() for s in sfs], hist, [v.cls for v in res.violations])
     res.state_hash = jhash([digests0, ops])
-    res.nontrivial = nontrivial
+    res.nontrivial = nontrivial or (bool(sc.get("hostile")) and sum(1 for o in ops if o[0] != "ls") >= 2)
     res.sample = {"fmt": fmt, "ops": ops, "image_bytes": sum(s.size for s in sfs)}
     return res
